@@ -1,3 +1,167 @@
-import CxVerif.Impl.SimdBlake2
+/-
+  Props.C16 (BLAKE2 part, DESIGN C16 (iii)) — the vectorised BLAKE2 compressions agree with the portable reference.
+
+  Models: Impl.SimdBlake2 (lane models of avx.rs `compress_b`/`compress_s` and avx2.rs `compress_b`; the pshufb
+  masks, shuffle immediates, shift amounts, DIAGONALIZE immediates, the message-gathering macros and the `ROUND!`
+  sequence are EXTRACTED from the source on every run) against Impl.Blake2.reference_compress (= RFC 7693 `F`,
+  Props/C01/Blake2.lean).  All statements are for EVERY chaining value, EVERY pair of counter words, EVERY block and
+  both values of the last-block flag; no hypothesis.
+
+  What is NOT a theorem (partial by nature): that a `-C target-feature` build executes these lane operations, that
+  the aligned loads `_mm_load_si128(h)` / `_mm256_load_si256(h)` never fault (alignment promised by
+  `#[repr(align(32))]`), and which `cfg` blocks the compiler keeps — observed by the ops `simd.blake2b/s` through the
+  four harness builds.  The dispatch theorems are about the extracted `[feature, module]` tables of mod.rs.
+-/
+import CxVerif.Proofs.SimdBlake2Compress
+import CxVerif.Proofs.SimdBlake2Ctx
+import CxVerif.Props.C01.Blake2
 namespace Cx.Props.C16
+open Cx Cx.Impl.Simd Cx.Impl.SimdBlake2 Cx.Proofs.SimdBlake2
+open Cx.Spec.Blake2 (msel)
+open Cx.Impl.Blake2 (sigmaRow LastBlock reference_compress)
+
+/-! ### (1) every rotation implementation is the rotation by the RFC amount -/
+
+/-- avx.rs BLAKE2b: pshufb masks `r16`, `r24`, `_mm_shuffle_epi32(_, _MM_SHUFFLE(2,3,0,1))`, `srli 63 ^ slli 1`
+    = rotate right by 16, 24, 32, 63 on both lanes, every register value -/
+theorem blake2b_avx_rotations (r : V2x64) :
+    AvxB.rotate32_epi64 r = ⟨rotr64 r.l0 32, rotr64 r.l1 32⟩ ∧
+    AvxB.rotate24_epi64 r = ⟨rotr64 r.l0 24, rotr64 r.l1 24⟩ ∧
+    AvxB.rotate16_epi64 r = ⟨rotr64 r.l0 16, rotr64 r.l1 16⟩ ∧
+    AvxB.rotate63_epi64 r = some ⟨rotr64 r.l0 63, rotr64 r.l1 63⟩ :=
+  ⟨avxb_rotate32 r, avxb_rotate24 r, avxb_rotate16 r, avxb_rotate63 r⟩
+
+/-- avx.rs BLAKE2s: pshufb masks `r16`, `r8`, `srli 12 ^ slli 20`, `srli 7 ^ slli 25` = rotate right by 16, 12, 8, 7 -/
+theorem blake2s_avx_rotations (r : V4x32) :
+    AvxS.rotate16_epi32 r = ⟨rotr32 r.l0 16, rotr32 r.l1 16, rotr32 r.l2 16, rotr32 r.l3 16⟩ ∧
+    AvxS.rotate12_epi32 r = some ⟨rotr32 r.l0 12, rotr32 r.l1 12, rotr32 r.l2 12, rotr32 r.l3 12⟩ ∧
+    AvxS.rotate8_epi32 r = ⟨rotr32 r.l0 8, rotr32 r.l1 8, rotr32 r.l2 8, rotr32 r.l3 8⟩ ∧
+    AvxS.rotate7_epi32 r = some ⟨rotr32 r.l0 7, rotr32 r.l1 7, rotr32 r.l2 7, rotr32 r.l3 7⟩ :=
+  ⟨avxs_rotate16 r, avxs_rotate12 r, avxs_rotate8 r, avxs_rotate7 r⟩
+
+/-- avx2.rs: `rot32` (dword shuffle), `rot24`, `rot16` (32-byte pshufb masks, per 128-bit half), `rot63` (`srli 63 | (v + v)`) -/
+theorem blake2b_avx2_rotations (v : V4x64) :
+    Avx2B.rot32 v = ⟨rotr64 v.l0 32, rotr64 v.l1 32, rotr64 v.l2 32, rotr64 v.l3 32⟩ ∧
+    Avx2B.rot24 v = ⟨rotr64 v.l0 24, rotr64 v.l1 24, rotr64 v.l2 24, rotr64 v.l3 24⟩ ∧
+    Avx2B.rot16 v = ⟨rotr64 v.l0 16, rotr64 v.l1 16, rotr64 v.l2 16, rotr64 v.l3 16⟩ ∧
+    Avx2B.rot63 v = some ⟨rotr64 v.l0 63, rotr64 v.l1 63, rotr64 v.l2 63, rotr64 v.l3 63⟩ :=
+  ⟨avx2_rot32 v, avx2_rot24 v, avx2_rot16 v, avx2_rot63 v⟩
+
+/-! ### (2) message gathering = m[SIGMA[r][i]]  (table theorems over the extracted shuffle programs) -/
+
+/-- `load0! … load9!` of `compress_b_avx`: for every message and every r < 10 the eight gathered vectors are
+    `(m[σ0], m[σ2]) (m[σ4], m[σ6]) (m[σ1], m[σ3]) (m[σ5], m[σ7]) (m[σ8], m[σ10]) (m[σ12], m[σ14]) (m[σ9], m[σ11]) (m[σ13], m[σ15])`, σ = SIGMA[r] -/
+theorem blake2b_avx_loads_eq_sigma (w : Vector UInt64 16) (r : Nat) (h : r < 10) :
+    AvxB.load (AvxB.msgVecs w) r = some (avxbExpected w (sigmaRow r)) := avxb_loads_eq_sigma w r h
+
+/-- `load0! … load9!` of `compress_s_avx` (blend / byte-shift / unpack / shuffle chains):
+    `(m[σ0], m[σ2], m[σ4], m[σ6]) (m[σ1], m[σ3], m[σ5], m[σ7]) (m[σ8], m[σ10], m[σ12], m[σ14]) (m[σ9], m[σ11], m[σ13], m[σ15])` -/
+theorem blake2s_avx_loads_eq_sigma (w : Vector UInt32 16) (r : Nat) (h : r < 10) :
+    AvxS.load (AvxS.msgVecs w) r = some (avxsExpected w (sigmaRow r)) := avxs_loads_eq_sigma w r h
+
+/-- `load0! … load9!` of `compress_b_avx2`: the diagonal halves come in the lane order 7, 4, 5, 6 of the a-rotating
+    DIAGONALIZE: `(σ0, σ2, σ4, σ6) (σ1, σ3, σ5, σ7) (σ14, σ8, σ10, σ12) (σ15, σ9, σ11, σ13)` -/
+theorem blake2b_avx2_loads_eq_sigma (w : Vector UInt64 16) (r : Nat) (h : r < 10) :
+    Avx2B.load (Avx2B.msgVecs w) r = some (avx2Expected w (sigmaRow r)) := avx2_loads_eq_sigma w r h
+
+/-- the `ROUND!` sequences use rows 0..9 (0..9, 0, 1 for BLAKE2b) = the rows of the reference `compressbody!` -/
+theorem blake2_simd_round_sequence :
+    Extracted.Simd.B_AVX_ROUNDS.map sigmaRow = Impl.Blake2.compressRows Impl.Blake2.b ∧
+    Extracted.Simd.B_AVX2_ROUNDS.map sigmaRow = Impl.Blake2.compressRows Impl.Blake2.b ∧
+    Extracted.Simd.S_AVX_ROUNDS.map sigmaRow = Impl.Blake2.compressRows Impl.Blake2.s := ⟨b_rows, b2_rows, s_rows⟩
+
+/-! ### (3) one vector round = one reference round (G on rows + DIAGONALIZE/UNDIAGONALIZE = G on columns and diagonals) -/
+
+theorem blake2b_avx_round (s : AvxB.Rows) (w : Vector UInt64 16) (σ : List Nat) :
+    ∃ s', AvxB.ROUND avxbRot63 s (avxbExpected w σ) = some s' ∧
+      avxbV16 s' = Spec.Blake2.round 32 24 16 63 w (avxbV16 s) σ := avxb_ROUND s w σ
+
+theorem blake2s_avx_round (s : AvxS.Rows) (w : Vector UInt32 16) (σ : List Nat) :
+    ∃ s', AvxS.ROUND avxsRots s (avxsExpected w σ) = some s' ∧
+      avxsV16 s' = Spec.Blake2.round 16 12 8 7 w (avxsV16 s) σ := avxs_ROUND s w σ
+
+theorem blake2b_avx2_round (s : Avx2B.Rows) (w : Vector UInt64 16) (σ : List Nat) :
+    ∃ s', Avx2B.ROUND avx2Rot63 s (avx2Expected w σ) = some s' ∧
+      avx2V16 s' = Spec.Blake2.round 32 24 16 63 w (avx2V16 s) σ := avx2_ROUND s w σ
+
+/-! ### (4) the compressions, including the counter / flag vector and the feed-forward -/
+
+/-- **avx::compress_b = reference::compress_b** for every chaining value, counter words `t0 t1` (as the code holds
+    them: `[u64; 2]` loaded as one register), block and flag (`_mm_set_epi64x(0, -1)`) -/
+theorem blake2b_avx_compress (h : Vector UInt64 8) (t0 t1 : Nat) (buf : Bytes) (last : LastBlock) :
+    avx_compress_b h t0 t1 buf last = some (reference_compress Impl.Blake2.b h t0 t1 buf last) :=
+  avx_compress_b_eq h t0 t1 buf last
+
+/-- **avx::compress_s = reference::compress_s**; counter/flag vector `_mm_set_epi32(0, -1|0, t[1], t[0])` -/
+theorem blake2s_avx_compress (h : Vector UInt32 8) (t0 t1 : Nat) (buf : Bytes) (last : LastBlock) :
+    avx_compress_s h t0 t1 buf last = some (reference_compress Impl.Blake2.s h t0 t1 buf last) :=
+  avx_compress_s_eq h t0 t1 buf last
+
+/-- **avx2::compress_b = reference::compress_b**; counter/flag vector `_mm256_set_epi64x(0, -1|0, t[1], t[0])` -/
+theorem blake2b_avx2_compress (h : Vector UInt64 8) (t0 t1 : Nat) (buf : Bytes) (last : LastBlock) :
+    avx2_compress_b h t0 t1 buf last = some (reference_compress Impl.Blake2.b h t0 t1 buf last) :=
+  avx2_compress_b_eq h t0 t1 buf last
+
+/-- non-vacuity / test: a concrete counter at the lane boundary, last block, evaluated -/
+example : avx_compress_s Impl.Blake2.s.iv (2 ^ 32 - 1) (2 ^ 31) (List.replicate 64 0x61) .Yes
+    = some (reference_compress Impl.Blake2.s Impl.Blake2.s.iv (2 ^ 32 - 1) (2 ^ 31) (List.replicate 64 0x61) .Yes) := by decide +kernel
+
+/-! ### (5) dispatch (mod.rs): the extracted `[feature, module]` tables, and every feature set computes the portable function -/
+
+/-- TABLE: `EngineB::compress` tries avx2 first, then avx; `EngineS::compress` only avx; otherwise `reference` -/
+theorem blake2_dispatch_table (ft : Features) :
+    selectPath ft Extracted.Simd.DISPATCH_BLAKE2B = (if ft.avx2 then 3 else if ft.avx then 2 else 0) ∧
+    selectPath ft Extracted.Simd.DISPATCH_BLAKE2S = (if ft.avx then 2 else 0) := by
+  obtain ⟨a, b, c⟩ := ft
+  cases a <;> cases b <;> cases c <;> decide
+
+/-- **for every feature set the engine's compression is the portable compression** -/
+theorem blake2b_engine_compress (ft : Features) : IsReference Impl.Blake2.b (EngineB.compress ft) := by
+  intro h t0 t1 buf last
+  unfold EngineB.compress
+  rw [(blake2_dispatch_table ft).1]
+  cases h2 : ft.avx2
+  · cases h1 : ft.avx
+    · rfl
+    · exact avx_compress_b_eq h t0 t1 buf last
+  · exact avx2_compress_b_eq h t0 t1 buf last
+
+theorem blake2s_engine_compress (ft : Features) : IsReference Impl.Blake2.s (EngineS.compress ft) := by
+  intro h t0 t1 buf last
+  unfold EngineS.compress
+  rw [(blake2_dispatch_table ft).2]
+  cases h1 : ft.avx
+  · rfl
+  · exact avx_compress_s_eq h t0 t1 buf last
+
+/-- **whole histories**: construction (keyed or not), optional counter preset, any sequence of updates, finalisation —
+    the digest does not depend on the feature set (this is what op `simd.blake2b` runs) -/
+theorem blake2b_features_irrelevant (ft ft' : Features) (outlen : Nat) (key : Bytes) (counter : Option (Nat × Nat))
+    (pieces : List Bytes) :
+    blake2b_with ft outlen key counter pieces = blake2b_with ft' outlen key counter pieces :=
+  hash_with_congr _ _ _ (blake2b_engine_compress ft) (blake2b_engine_compress ft') outlen key counter pieces
+
+theorem blake2s_features_irrelevant (ft ft' : Features) (outlen : Nat) (key : Bytes) (counter : Option (Nat × Nat))
+    (pieces : List Bytes) :
+    blake2s_with ft outlen key counter pieces = blake2s_with ft' outlen key counter pieces :=
+  hash_with_congr _ _ _ (blake2s_engine_compress ft) (blake2s_engine_compress ft') outlen key counter pieces
+
+/-- **every build computes RFC 7693**: with the C01 theorem of unit blake2, for every feature set, every message,
+    every valid output length and key -/
+theorem blake2b_simd_eq_spec (ft : Features) (outlen : Nat) (key msg : Bytes) (ho : 1 ≤ outlen ∧ outlen ≤ 64)
+    (hk : key.length ≤ 64) :
+    blake2b_with ft outlen key none [msg] = some (Spec.Blake2.blake2b outlen key msg) := by
+  unfold blake2b_with
+  rw [hash_with_one _ _ (blake2b_engine_compress ft)]
+  exact Cx.Props.C01.blake2b_eq_spec outlen key msg ho hk
+
+theorem blake2s_simd_eq_spec (ft : Features) (outlen : Nat) (key msg : Bytes) (ho : 1 ≤ outlen ∧ outlen ≤ 32)
+    (hk : key.length ≤ 32) :
+    blake2s_with ft outlen key none [msg] = some (Spec.Blake2.blake2s outlen key msg) := by
+  unfold blake2s_with
+  rw [hash_with_one _ _ (blake2s_engine_compress ft)]
+  exact Cx.Props.C01.blake2s_eq_spec outlen key msg ho hk
+
+example : (1 ≤ 32 ∧ 32 ≤ 64) ∧ ([1, 2, 3] : Bytes).length ≤ 64 := by decide
+
 end Cx.Props.C16
